@@ -41,6 +41,10 @@ def gen_program(rng, depth, budget, prop):
             acts.append(["join", j] if rng.random() < 0.7 else ["stop", j])
     if rng.random() < 0.4:
         acts.insert(rng.randint(0, len(acts)), ["wait_stop"])
+    # join a thread that is not a child of this one (by creation number, if it exists by then and is not an ancestor):
+    # its unregistration from ITS parent then races with that parent registering further children
+    if rng.random() < 0.2:
+        acts.insert(rng.randint(0, len(acts)), ["join_node", rng.randint(1, 6)])
     if rng.random() < 0.3:
         acts.append(["raise"])
     else:
@@ -71,9 +75,41 @@ def gen_family(rng):
     return {"main": main}
 
 
+def gen_timed_family(rng):
+    """C12: join(till) of a thread whose children are still running, with a till that has fired or not"""
+    kids = []
+    for _ in range(rng.randint(1, 2)):
+        kids.append(["spawn", [["wait_stop"], ["ret", rng.randrange(len(VALUES))]]])
+    prog = kids + ([["wait_stop"]] if rng.random() < 0.7 else []) + [["ret", rng.randrange(len(VALUES))] if rng.random() < 0.8 else ["raise"]]
+    main = [["spawn", prog], ["join", 0, rng.choice([1, 1, 0])]]
+    if rng.random() < 0.5:
+        main.append(["join", 0])
+    main.append(["main_stop"])
+    return {"main": main}
+
+
+def gen_cross_join(rng):
+    """C10: somebody who is not the parent joins a child (and thereby unregisters it from its parent) while the parent is
+    still registering further children"""
+    kids = [["spawn", [["ret", rng.randrange(len(VALUES))]]]]
+    for i in range(rng.randint(1, 3)):
+        # the next registration is held back until the first child (thread 2) has stopped: it then meets the join that unregisters it
+        kids.append(["spawn", ([["wait_stop"]] if rng.random() < 0.7 else []) + [["ret", rng.randrange(len(VALUES))]]] + ([2] if i == 0 else []))
+    prog = kids + ([["wait_stop"]] if rng.random() < 0.5 else []) + [["ret", rng.randrange(len(VALUES))]]
+    main = [["spawn", prog], ["join_node", 2]]
+    if rng.random() < 0.4:
+        main.append(["join_node", 3])
+    main.append(["main_stop"])
+    return {"main": main}
+
+
 def gen_scenario(rng, prop="C10"):
     if prop == "C11" and rng.random() < 0.3:
         return gen_family(rng)
+    if prop == "C10" and rng.random() < 0.25:
+        return gen_cross_join(rng)
+    if prop == "C12" and rng.random() < 0.2:
+        return gen_timed_family(rng)
     budget = [rng.randint(1, 7)]
     main = []
     k = 0
@@ -91,6 +127,8 @@ def gen_scenario(rng, prop="C10"):
     if rng.random() < 0.3:
         # join_all_threads(children), sometimes with a time limit (a signal that has / has not fired)
         main.append(["join_all"] + ([rng.choice([0, 1])] if rng.random() < 0.4 else []))
+    if rng.random() < 0.3:
+        main.insert(rng.randint(1, len(main)), ["join_node", rng.randint(2, 6)])
     main.append(["main_stop"])
     return {"main": main}
 
@@ -104,7 +142,8 @@ def shape(sc):
             elif a[0] == "spawn_orphan":
                 s += "{" + f(a[1]) + "}"
             else:
-                s += {"join": "j", "release": "r", "stop": "s", "wait_stop": "w", "raise": "!", "ret": ".", "join_all": "J", "main_stop": "M"}[a[0]]
+                s += {"join": "j", "release": "r", "stop": "s", "wait_stop": "w", "raise": "!", "ret": ".", "join_all": "J", "main_stop": "M",
+                      "join_node": "n"}[a[0]]
         return s
     return f(sc["main"])
 
@@ -150,11 +189,22 @@ class ChildrenSlot(object):
     def __init__(self, desc):
         self.desc = desc
 
+    @staticmethod
+    def _unlocked(obj, s):
+        """an access to `children` by a thread that does not hold the thread's child_locker is a pre-emption point of its own
+        (in the code as it stands there is none once the thread runs: every access is made under the lock)"""
+        lk = getattr(obj, "child_locker", None)
+        mutex = lk if hasattr(lk, "owner") else getattr(lk, "lock", None)
+        if mutex is not None and getattr(mutex, "owner", None) is not s.me() and not s.abort and getattr(obj, "threading_thread", None) is not None:
+            s.yield_point(("children", id(obj)))
+
     def __get__(self, obj, typ=None):
         if obj is None:
             return self
-        v = self.desc.__get__(obj, typ)
         s = ds.CUR
+        if s is not None and s.me() is not None:
+            self._unlocked(obj, s)
+        v = self.desc.__get__(obj, typ)
         if s is None or s.me() is None:
             return v
         p = _node_of(obj)
@@ -182,8 +232,10 @@ class ChildrenSlot(object):
         return v
 
     def __set__(self, obj, value):
-        self.desc.__set__(obj, value)
         s = ds.CUR
+        if s is not None and s.me() is not None:
+            self._unlocked(obj, s)
+        self.desc.__set__(obj, value)
         if s is None or s.me() is None:
             return
         p = _node_of(obj) if hasattr(obj, "threading_thread") else None
@@ -314,6 +366,7 @@ def run_scenario(sc, chooser=None, seed=0, max_steps=30000):
                 sched.note("env", "fire", x)
                 till_sig.go()
         sched.note("call", caller, "join", nid, tl)
+        t_call = sched.clock
         try:
             r = th.join(till=till_sig) if timed else th.join()
             stopped = bool(ds.raw(th.stopped, "_go"))
@@ -325,6 +378,9 @@ def run_scenario(sc, chooser=None, seed=0, max_steps=30000):
             stopped = bool(ds.raw(th.stopped, "_go"))
             st["join_results"].append((caller, nid, "raise", e, stopped, timed))
             sched.note("ret", caller, "join", "raised" if stopped else "timeout")
+        if timed and a[2] == 1 and sched.clock > t_call:
+            st["viol"].append("C12: join(n%d, till) was called with a till that had already fired and took %.2f s of virtual time: it "
+                              "waited for something without its time limit" % (nid, sched.clock - t_call))
 
     def subtree(nid):
         ids = [nid]
@@ -351,11 +407,28 @@ def run_scenario(sc, chooser=None, seed=0, max_steps=30000):
 
     def run_action(nid, a, kids, please_stop):
         if a[0] == "spawn":
+            if len(a) > 2:
+                # gated: not before thread a[2] has triggered `stopped` (or 0.2 s have passed)
+                k, t0 = a[2], sched.clock
+                sched.wait_cond(lambda: (k in st["nodes"] and bool(ds.raw(st["nodes"][k].stopped, "_go"))) or sched.clock >= t0 + 0.2)
             kids.append(spawn(a[1], nid))
         elif a[0] == "spawn_orphan":
             spawn_orphan(a[1], nid)
         elif a[0] == "join":
             do_join(nid, kids[a[1]], a)
+        elif a[0] == "join_node":
+            k = a[1]
+            t0 = sched.clock
+            sched.wait_cond(lambda: k in st["nodes"] or sched.clock >= t0 + 0.2)     # give the thread time to be created
+            anc = set()
+            x = nid
+            while x:
+                anc.add(x)
+                x = next((p for p, cs in st["kids"].items() if x in cs), 0)
+            # only younger threads (k > own number): every wait then goes from a smaller to a larger number (a parent waits
+            # for its children, which are younger), so no cycle of joins can be built
+            if k in st["nodes"] and k > nid and k not in anc and k not in st.get("orphans", []):
+                do_join(nid, (k, st["nodes"][k]), a[:2])
         elif a[0] == "release":
             sched.note("call", nid, "release", kids[a[1]][0])
             kids[a[1]][1].release()
